@@ -72,6 +72,14 @@ def build(case):
     return X, delays, md, nsub, mask, rng
 
 
+def down1d_factor(case, size):
+    """1..9, or (half of the cases) a larger factor from {16, 32, 64, 128, 17, 48, 100}: powers of two, at and beyond the thread count."""
+    if (case["seed"] // 11) % 2 and size >= 32:
+        big = [f for f in (16, 32, 64, 128, 17, 48, 100) if f <= size // 2]
+        return big[case["seed"] % len(big)]
+    return 1 + case["seed"] % max(1, min(size, 9))
+
+
 def run_kernel(case, t, k):
     """Execute the kernel once under (t threads, chunk size k); returns a tuple of output arrays."""
     import numba
@@ -126,7 +134,7 @@ def run_kernel(case, t, k):
                 fn(flat, m, 0)
             return (m.view(np.uint8).reshape(-1).copy(),)
         if name == "down1d":
-            f = 1 + case["seed"] % max(1, min(flat.size, 9))
+            f = down1d_factor(case, flat.size)
             return (kernels.downsample_1d_mean_parallel(flat, f),)
         if name == "down2d":
             f1 = 1 + case["seed"] % max(1, min(ns, 5))
@@ -173,7 +181,7 @@ def reference(case):
         return Xf[:, ::-1].reshape(-1)
     if name == "down1d":
         flat = Xf.reshape(-1)
-        f = 1 + case["seed"] % max(1, min(flat.size, 9))
+        f = down1d_factor(case, flat.size)
         n = flat.size // f
         m = flat[: n * f].reshape(n, f).mean(1)
         return ("mean", m)
